@@ -8,8 +8,8 @@ for l in open(os.path.join(root, "matrix.txt")):
     if m:
         mat[m.group(1)] = re.findall(r"(C\d\d) (CAUGHT|MISSED|TOOL)", l)
 rows, n, allc, own = [], 0, 0, 0
-for d in sorted(os.listdir(root)):
-    m = re.match(r"(C\d\d)-(\d)$", d)
+for d in sorted(os.listdir(root), key=lambda x: [int(t) if t.isdigit() else t for t in re.split(r"(\d+)", x)]):
+    m = re.match(r"(C\d\d)-(\d+)$", d)
     if not m:
         continue
     res = mat.get(d, [])
@@ -34,14 +34,15 @@ if marker in s:
     s = s[:s.index(marker)]
 s = s.rstrip("\n") + f"""
 
-## Rounds 2 to 5 (`-3` ... `-0`)
+## Rounds 2 to 6 (`-3` ... `-10`)
 
 Written by fresh sub-agents under the same conditions as round 1, additionally given the one-paragraph summaries of the
 earlier changes for the same property (from `meta.json`, i.e. written by earlier sub-agents) so that theirs differ in
 mechanism and location. Round 2 (`-3`, `-4`): C01-C05, C08, C14, C18; round 3 (`-3`, `-4`): the other twelve properties;
-rounds 4 (`-5`, `-6`) and 5 (`-7`, `-8`): all twenty. Each confirmed with `bin/mutverify.py` and stored with
+rounds 4 (`-5`, `-6`), 5 (`-7`, `-8`) and 6 (the last two of every property; `_rejected/C19-9` was set aside, DESIGN.md
+13.14): all twenty. Each confirmed with `bin/mutverify.py` and stored with
 `bin/mutstore.py`. About half of every round was missed by the check of its own property when it arrived; DESIGN.md 13.9,
-13.11 and 13.12 list what each miss changed in the machinery. The table shows the state after that strengthening (last
+13.11, 13.12 and 13.14 list what each miss changed in the machinery. The table shows the state after that strengthening (last
 full matrix run, quick tier, VERIF_SEED=1). "not caught by" lists the checks that were tried and do not see the change
 (for neighbouring properties that is expected: the change does not break them, or only through a history they do not
 build).
